@@ -206,12 +206,28 @@ STATE_FIELDS = ("Runtime.revisions (current, last MEDIUM, last HIGH), cancellati
                 "(value, changed_at, durability), every memo (has_value, verified_at, changed_at, durability, "
                 "untracked origin, edge list in order, verified_final, iteration byte, cancellation byte of the "
                 "stamp, cycle heads in vector order with their iteration byte)")
-STATE_EXCLUDED = ("memo values (not printable through the hook: only has_value), the cycle_converged flag, "
-                  "SyncTable entries and DependencyGraph.transferred (no hook prints them; their effects are "
-                  "observed through later claims), heads marked `removed` (skipped by every reader)")
+STATE_EXCLUDED = ("memo values (not printable through the hook: only has_value); heads marked `removed` (skipped "
+                  "by every reader); WITHOUT hooks/H7-cycle.patch in /repo also: the cycle_converged flag, SyncTable "
+                  "entries and DependencyGraph.transferred (their effects are then observed only through later "
+                  "claims) — with H7 applied these three are compared too")
+
+
+def _strip_h7(line):
+    """drop the fields only hook H7 reports: per-memo converged flag, sync table, transferred map"""
+    line = re.sub(r" sync=\S*$", "", line)
+    return re.sub(r"\]:\d;", "];", line)
+
+
+def h7_present(impl_lines):
+    return any(l.startswith("S ") and " sync=" in l for l in impl_lines)
 
 
 def compare_case(impl_lines, model_lines):
+    """3-level diff.  The model always prints the H7 fields (cycle_converged per memo, SyncTable
+    entries, DependencyGraph.transferred); they are compared when the implementation's hook
+    reports them (hooks/H7-cycle.patch applied) and dropped from the model's lines otherwise."""
+    if not h7_present(impl_lines):
+        model_lines = [_strip_h7(l) if l.startswith("S ") else l for l in model_lines]
     return se.compare_case(impl_lines, model_lines)
 
 
@@ -234,7 +250,7 @@ def parse_memos(st):
         for ent in m.group(1).split(";"):
             if ent:
                 k, hv, ver, ch, du, un, rest = ent.split(":", 6)
-                mm = re.match(r"^\[(.*?)\]:(\d):(\d+):(\d+):\[(.*?)\]", rest)
+                mm = re.match(r"^\[(.*?)\]:(\d):(\d+):(\d+):\[(.*?)\]", rest)   # (+ optional :conv with H7)
                 memos[k] = dict(hv=hv, ver=int(ver), ch=int(ch), dur=int(du), untr=un, edges=mm.group(1),
                                 final=mm.group(2) == "1", it=int(mm.group(3)), cc=int(mm.group(4)),
                                 heads=[h for h in mm.group(5).split(",") if h])
